@@ -436,6 +436,123 @@ def run_laws(ctx: Ctx, n_cases: int):
     ctx.sample({"stream": "laws", "example": case}, cap=9)
 
 
+# ----------------------------------------------------------------------------- mixed batches (round 6: C03-6, C01-6)
+
+def _degenerate(rng, name, g, kind):
+    """an exactly degenerate variant of the element `g` (list): identity rotation / scale exactly 1 / zero translation / identity"""
+    g = list(g)
+    if kind in ("rot", "all"):
+        g[U.QSL[name]] = [0.0, 0.0, 0.0, 1.0]
+    if kind in ("scale", "all") and U.SIDX[name] is not None:
+        g[U.SIDX[name]] = 1.0
+    if kind in ("trans", "all") and U.TSL[name] is not None:
+        g[U.TSL[name]] = [0.0, 0.0, 0.0]
+    return g
+
+
+def _act_oracle(name, x, p):
+    """s R(q) p[:3] + w t in float64 from the raw components (independent of pypose)"""
+    q = x[U.QSL[name]]
+    qx, qy, qz, qw = q
+    R = [[1 - 2 * (qy * qy + qz * qz), 2 * (qx * qy - qz * qw), 2 * (qx * qz + qy * qw)],
+         [2 * (qx * qy + qz * qw), 1 - 2 * (qx * qx + qz * qz), 2 * (qy * qz - qx * qw)],
+         [2 * (qx * qz - qy * qw), 2 * (qy * qz + qx * qw), 1 - 2 * (qx * qx + qy * qy)]]
+    sc = x[U.SIDX[name]] if U.SIDX[name] is not None else 1.0
+    t = x[U.TSL[name]] if U.TSL[name] is not None else [0.0, 0.0, 0.0]
+    w = p[3] if len(p) == 4 else 1.0
+    out = [sc * sum(R[i][k] * p[k] for k in range(3)) + w * t[i] for i in range(3)]
+    return out + ([p[3]] if len(p) == 4 else [])
+
+
+def mixed_batch_case(ctx: Ctx, case) -> bool:
+    """a batch in which a few (or most) items are EXACTLY degenerate (identity rotation, scale 1, zero translation) and the rest
+    generic, in a contiguous or permuted layout: every item of every batched result must equal the same operation on that item
+    alone, and Act must be s R p + w t (float64 oracle from the raw components)."""
+    n0 = len(ctx.failures)
+    P = U.pp()
+    name, dtype, shape, layout = case["type"], case["dtype"], tuple(case["shape"]), case["layout"]
+    D = U.dt(dtype)
+    eps = common.EPS[dtype]
+    N = math.prod(shape)
+    Xt, X64 = U.to_dtype_exact(case["X"], dtype)
+    Yt, _ = U.to_dtype_exact(case["Y"], dtype)
+    pt, p64 = U.to_dtype_exact(case["p"], dtype)
+    d = len(case["p"][0])
+
+    def lay(t):
+        t = t.reshape(shape + (t.shape[-1],))
+        if layout == "contig" or len(shape) < 2:
+            return t
+        perm = list(range(len(shape)))[::-1] + [len(shape)]
+        stor = t.permute(perm).contiguous()          # storage in the reversed order of the batch dims ...
+        return stor.permute(perm)                    # ... viewed back: same values, permuted strides
+    X = P.LieTensor(lay(Xt), ltype=U.ltype(name))
+    Y = P.LieTensor(lay(Yt), ltype=U.ltype(name))
+    p = lay(pt)
+    try:
+        outs = {"Act": X.Act(p), "matrix": X.matrix(), "Inv": X.Inv().tensor(), "Mul": (X @ Y).tensor()}
+        G, n = U.GDIM[name], U.MATN[name]
+        flat = {"Act": outs["Act"].reshape(N, d), "matrix": outs["matrix"].reshape(N, n * n),
+                "Inv": outs["Inv"].reshape(N, G), "Mul": outs["Mul"].reshape(N, G)}
+        for i in range(N):
+            Xi = P.LieTensor(Xt[i].clone(), ltype=U.ltype(name))
+            Yi = P.LieTensor(Yt[i].clone(), ltype=U.ltype(name))
+            single = {"Act": Xi.Act(pt[i].clone()).reshape(d), "matrix": Xi.matrix().reshape(n * n),
+                      "Inv": Xi.Inv().tensor().reshape(G), "Mul": (Xi @ Yi).tensor().reshape(G)}
+            for op in flat:
+                a, b = flat[op][i].double(), single[op].double()
+                if not bool(torch.isfinite(a).all()):
+                    ctx.fail(case | {"item": i, "op": op}, f"non-finite: item {i} of the batched {op} on {name} ({dtype}, {layout} {shape}) is not finite")
+                    continue
+                lim = 8 * eps * (1.0 + float(b.abs().max()))
+                if gt(float((a - b).abs().max()), lim):
+                    ctx.fail(case | {"item": i, "op": op},
+                             f"batch-item: item {i} of the batched {op} on {name} ({dtype}, layout {layout}, lshape {shape}, "
+                             f"{case['mix']}) differs from the same operation on that item alone by {float((a - b).abs().max()):.3e} (allowed {lim:.1e}); "
+                             f"item = {X64[i].tolist()}")
+                    break
+            want = _act_oracle(name, X64[i].tolist(), p64[i].tolist())
+            got = flat["Act"][i].double().tolist()
+            sc = 1.0 + max(abs(v) for v in want)
+            if gt(max(abs(g_ - w_) for g_, w_ in zip(got, want)), 64 * eps * sc * (1 + max(abs(v) for v in X64[i].tolist()))):
+                ctx.fail(case | {"item": i, "op": "Act"},
+                         f"action{d}: item {i} of the batched Act on {name} ({dtype}, layout {layout}, lshape {shape}, {case['mix']}) is not "
+                         f"s R p + w t: got {got}, want {want}; item = {X64[i].tolist()}")
+                break
+    except Exception as e:
+        ctx.fail(case, f"raises: mixed batch on {name} raised {type(e).__name__}: {str(e)[:150]}")
+    return len(ctx.failures) == n0
+
+
+def run_mixed_batches(ctx: Ctx):
+    rng = ctx.rng
+    shapes = [(16,), (6, 4), (2, 3, 4)] if ctx.quick else [(16,), (33,), (6, 4), (9, 5), (2, 3, 4), (4, 4, 4)]
+    for name in U.GROUPS:
+        for dtype in ("float64", "float32"):
+            eps = common.EPS[dtype]
+            for shape in shapes:
+                N = math.prod(shape)
+                for layout in (("contig", "permuted") if len(shape) > 1 else ("contig",)):
+                    for mix, ndeg in (("one degenerate", 1), ("few degenerate", max(2, N // 10)), ("most degenerate", N - 2)):
+                        kinds = [k for k in ("rot", "scale", "trans", "all") if not (k == "scale" and U.SIDX[name] is None)
+                                 and not (k == "trans" and U.TSL[name] is None)]
+                        kind = rng.choice(kinds)
+                        deg = set(rng.sample(range(N), ndeg))
+                        X, Y = [], []
+                        for i in range(N):
+                            gx = U.gen_group(rng, name, eps, thi=10.0, shi=2.0)[0]
+                            gy = U.gen_group(rng, name, eps, thi=10.0, shi=2.0)[0]
+                            X.append(_degenerate(rng, name, gx, kind) if i in deg else gx)
+                            Y.append(_degenerate(rng, name, gy, rng.choice(kinds)) if (i + 1) % N in deg else gy)
+                        d = rng.choice([3, 4])
+                        p = [U.vec(rng, 1.0 + 9 * rng.random()) + ([rng.choice([0.0, 1.0, rng.uniform(-2, 2)])] if d == 4 else []) for _ in range(N)]
+                        case = {"stream": "mixed", "type": name, "dtype": dtype, "shape": list(shape), "layout": layout,
+                                "mix": f"{mix}: {kind} on items {sorted(deg)[:6]}", "X": X, "Y": Y, "p": p}
+                        mixed_batch_case(ctx, case)
+                        ctx.note_case(("mixed", name, dtype, shape, layout, mix, kind), True)
+                        ctx.count(f"mixed.{layout}")
+
+
 # ----------------------------------------------------------------------------- retraction validity ladder
 
 def retr_ladder_case(ctx: Ctx, case) -> bool:
@@ -973,6 +1090,7 @@ def run(ctx: Ctx):
     run_default_dtype(ctx)
     run_interleave(ctx)
     run_large(ctx)
+    run_mixed_batches(ctx)
     run_ops(ctx, ctx.pick(260, 3000))
     run_laws(ctx, ctx.pick(300, 4000))
     if ctx.quick:
@@ -1001,6 +1119,11 @@ def replay(ctx: Ctx, case) -> bool:
     c = case["case"]
     if c.get("stream") == "laws":
         ok = law_case(ctx, c)
+        for f in ctx.failures:
+            print("  fails:", f["what"])
+        return ok
+    if c.get("stream") == "mixed":
+        ok = mixed_batch_case(ctx, c)
         for f in ctx.failures:
             print("  fails:", f["what"])
         return ok
